@@ -173,16 +173,14 @@ def genValue (id relid size : Nat) : Gen ToastValue := do
 
 /-! ### relations -/
 
-/-- header states that are LIVE by the tuple's own hint bits (`Spec.liveBits`: XMIN_COMMITTED set, and not XMAX_COMMITTED
-without XMAX_INVALID) -/
-def liveMasks : List Nat := [0x0902, 0x0102, 0x0B02, 0x0302, 0x2902]
-/-- header states that are NOT live by the hint bits: deleted (0x0502), nothing hinted (0x0002), aborted inserter
-(0x0202, 0x0A02), 0x0402 / 0x0602 — and 0x0802 (XMAX_INVALID only): the state of every freshly inserted tuple until
-something sets XMIN_COMMITTED.  PostgreSQL reads TOAST chunks under a visibility rule that consults the commit log and
-never sets hint bits, so chunks of a committed value can stay in state 0x0802 until VACUUM; the tool, which has no
-commit log (C09: "classified by their own hint bits only"), does not see them — this is the liveness notion of the Spec
-(`Entry.live`), stated in the doc comments of Props/C08. -/
-def deadMasks : List Nat := [0x0502, 0x0002, 0x0202, 0x0A02, 0x0402, 0x0602, 0x0802]
+/-- header states (infomask) PostgreSQL's TOAST snapshot SEES whatever t_xmin ≠ 0 is (`Spec.Toast.toastVisible`): hinted
+committed (0x0902, 0x0102, 0x2902), frozen (0x0B02, 0x0302), nothing hinted yet (0x0802, 0x0002 — every chunk until the
+first VACUUM), and chunks of deleted values (xmax committed: 0x0502, 0x0402; locked / multixact xmax: 0x1882) -/
+def liveMasks : List Nat := [0x0902, 0x0102, 0x0B02, 0x0302, 0x2902, 0x0802, 0x0002, 0x0502, 0x0402, 0x0C02, 0x1882]
+/-- header states the TOAST snapshot does NOT see — the dead chunk versions: (infomask, t_xmin is zero).  Aborted insertions
+(HEAP_XMIN_INVALID without HEAP_XMIN_COMMITTED, any XMAX bits) and cancelled speculative insertions (t_xmin 0, no XMIN hint) -/
+def deadStates : List (Nat × Bool) :=
+  [(0x0A02, false), (0x0202, false), (0x0602, false), (0x0E02, false), (0x0A02, true), (0x0802, true), (0x0002, true), (0x0402, true)]
 
 /-- greedily pack entries into pages, now and then closing a page early -/
 def packPages (es : List Entry) : Gen Layout := do
@@ -205,13 +203,16 @@ def genLayout (vals : List ToastValue) : Gen Layout := do
   for v in vals do
     for r in chunkRows v do
       let short := r.data.length ≤ 126 && (← Gen.prob 1 10)
-      let mask ← if ← Gen.prob 1 5 then Gen.oneOf liveMasks else pure 0x0902
-      es := es.push { row := { r with short }, infomask := mask, xmin := ← Gen.range 3 100000 }
-      -- a dead / aborted / in-progress version of the same chunk, with different bytes
+      let mask ← if ← Gen.prob 1 3 then Gen.oneOf liveMasks else pure 0x0902
+      let xmax ← if mask.testBit 11 then pure 0 else Gen.range 3 100000
+      es := es.push { row := { r with short }, infomask := mask, xmin := ← Gen.range 1 100000, xmax }
+      -- a dead version of the same chunk (aborted / cancelled insertion), with different bytes
       if ← Gen.prob 1 8 then
         let junk ← genBytes (← Gen.oneOf [r.data.length, 1, r.data.length + 1, 7])
-        es := es.push { row := { r with data := if junk.isEmpty then [0] else junk }, infomask := ← Gen.oneOf deadMasks,
-                        xmin := ← Gen.range 3 100000, xmax := ← Gen.range 3 100000 }
+        let (dmask, zeroXmin) ← Gen.oneOf deadStates
+        let dxmin ← Gen.range 3 100000
+        es := es.push { row := { r with data := if junk.isEmpty then [0] else junk }, infomask := dmask,
+                        xmin := if zeroXmin then 0 else dxmin, xmax := ← Gen.range 0 100000 }
   let order ← match ← Gen.below 5 with
     | 0 => pure es.toList
     | 1 => pure es.toList.reverse
